@@ -24,3 +24,31 @@ func TestVerifWitnessC02Inject(t *testing.T) {
 		}
 	}
 }
+
+// SetGenHeader stored the caller's slice (and encoded into it): what the caller wrote into that slice afterwards
+// reached the header block without passing the encoder, and a second SetGenHeader with the same slice rewrote the first
+// header. Obligation: mail.Msg.SetGenHeader#post[own-copy].
+func TestVerifWitnessC02SetGenHeaderKeepsCallersSlice(t *testing.T) {
+	m := NewMsg()
+	_ = m.From("a@example.com")
+	_ = m.To("b@example.com")
+	m.SetBodyString(TypeTextPlain, "x")
+	vals := []string{"first"}
+	m.SetGenHeader("X-One", vals...)
+	vals[0] = "second\r\nX-Injected: yes"
+	var buf bytes.Buffer
+	if _, err := m.WriteTo(&buf); err != nil {
+		t.Fatal(err)
+	}
+	if strings.Contains(buf.String(), "\r\nX-Injected: yes") {
+		t.Fatalf("a write into the caller's slice after SetGenHeader injected a header field:\n%s", buf.String())
+	}
+	if !strings.Contains(buf.String(), "X-One: first\r\n") {
+		t.Fatalf("X-One does not carry the value it was set to:\n%s", buf.String())
+	}
+	orig := []string{"café"}
+	m.SetGenHeader("X-Two", orig...)
+	if orig[0] != "café" {
+		t.Fatalf("SetGenHeader rewrote the caller's slice: %q", orig[0])
+	}
+}
